@@ -56,7 +56,8 @@ func (sfc *StructFieldsCopy) Frag(ctx context.Context) iter.Seq[string] {
 }
 
 func (sfc *StructFieldsCopy) createFieldSnippet(f *types.Var) snippet.Snippet {
-	fieldType := f.Type()
+	// alias should be copied as the type it denotes
+	fieldType := types.Unalias(f.Type())
 
 	switch x := fieldType.(type) {
 	case *types.Named:
